@@ -69,6 +69,41 @@ theorem answer_fresh_and_for_own_key (reqs : List (Key × Int × Bool)) (run : L
   obtain ⟨info, h1, h2, h3⟩ := (is.reqs q (List.mem_of_getElem? hq)).ans v ha
   exact ⟨info, h1, h2, h3, is.epochs _ _ h1⟩
 
+/-- **The cache key is the raw triple** (backend, client protocol, route generation): two requests whose keys differ in
+    any component — in particular two client protocol numbers, whether or not a version table knows them — are never
+    answered from the same backend fetch, in any schedule.  (A key component is an arbitrary `Int`/`Nat`/byte string: the
+    model has no lookup that could merge two of them.) -/
+theorem different_keys_never_share_a_fetch (reqs : List (Key × Int × Bool)) (run : List Label) (s : Sys)
+    (h : exec (init reqs) run = some s) (r1 r2 : Nat) (q1 q2 : Req) (h1 : s.reqs[r1]? = some q1) (h2 : s.reqs[r2]? = some q2)
+    (v1 v2 : Res) (a1 : q1.pc = .answered v1) (a2 : q2.pc = .answered v2) (hk : q1.key ≠ q2.key) : v1.lid ≠ v2.lid := by
+  obtain ⟨i1, hl1, hk1, _⟩ := answer_fresh_and_for_own_key reqs run s h r1 q1 h1 v1 a1
+  obtain ⟨i2, hl2, hk2, _⟩ := answer_fresh_and_for_own_key reqs run s h r2 q2 h2 v2 a2
+  intro he
+  rw [he, hl2] at hl1
+  cases hl1
+  exact hk (hk1.symm.trans hk2)
+
+/-- in particular for the client protocol -/
+theorem different_protocols_never_share_a_fetch (reqs : List (Key × Int × Bool)) (run : List Label) (s : Sys)
+    (h : exec (init reqs) run = some s) (r1 r2 : Nat) (q1 q2 : Req) (h1 : s.reqs[r1]? = some q1) (h2 : s.reqs[r2]? = some q2)
+    (v1 v2 : Res) (a1 : q1.pc = .answered v1) (a2 : q2.pc = .answered v2) (hp : q1.key.protocol ≠ q2.key.protocol) :
+    v1.lid ≠ v2.lid :=
+  different_keys_never_share_a_fetch reqs run s h r1 r2 q1 q2 h1 h2 v1 v2 a1 a2 (fun e => hp (by rw [e]))
+
+/-- a cache lookup returns only an entry stored under exactly the asked key -/
+theorem lookup_is_exact (c : List Entry) (k : Key) (e : Entry) (h : lookup c k = some e) : e.key = k :=
+  (lookup_some h).2
+
+/-- two unlisted protocol numbers (777, 778) to the same backend within the TTL: two fetches, each client its own -/
+example :
+    let ka : Key := ⟨[97], 777, 0⟩
+    let kb : Key := ⟨[97], 778, 0⟩
+    (match exec (init [(ka, 10, true), (kb, 10, true), (ka, 10, true)])
+        [.get 0, .check 0, .join 0, .recheck 0, .store 0 true, .finish 0,
+         .get 1, .check 1, .join 1, .recheck 1, .store 1 true, .finish 1, .get 2] with
+      | some s => (answer s 0, answer s 1, answer s 2) == (some ⟨0, true⟩, some ⟨1, true⟩, some ⟨0, true⟩) && s.loads.length == 2
+      | none => false) = true := by decide
+
 /-- the request's key is the one it was created with: answers are per (backend, protocol, route generation) -/
 theorem key_is_static (reqs : List (Key × Int × Bool)) (run : List Label) (s : Sys)
     (h : exec (init reqs) run = some s) (r : Nat) :
